@@ -45,7 +45,7 @@ P = dict(
           "monitored for spurious firing; distinct = distinct (scenario id) resp. distinct (state, operation, arguments) of the valid workloads; a scenario is "
           "non-trivial by construction (it violates a documented precondition)."),
     units=[
-        Unit("C05_contracts", "harness/C05_contracts.cpp", flavours={"quick": ["asan-cc", "asan-ccsafe"], "thorough": ["asan-cc", "asan-safe", "asan-ccsafe"]}, shards={"quick": 16, "thorough": 16}),
+        Unit("C05_contracts", "harness/C05_contracts.cpp", flavours={"quick": ["asan-cc", "asan-ccsafe", "asan-ccnd"], "thorough": ["asan-cc", "asan-safe", "asan-ccsafe", "asan-ccnd", "plain-ccnd"]}, shards={"quick": 16, "thorough": 16}),
         spur("C05_spur_vec_int", "harness/C01_vector.cpp", ["-DVF_ELEM=0", "-DVF_CAPS=0,1,2,3"]),
         spur("C05_spur_vec_tcm", "harness/C01_vector.cpp", ["-DVF_ELEM=2", "-DVF_CAPS=1,3,16"]),
         spur("C05_spur_str", "harness/C04_string.cpp", ["-DVF_CHAR=char", '-DVF_CHAR_NAME="char"', "-DVF_CAPS=0,1,3,7,16"]),
